@@ -396,6 +396,80 @@ def check_artefact(ctx, a, stats):
                 rep.check("sign(g23)=-sign(g_23)", loc, np.where(s < 0, 0.0, 1.0), 0.5)
 
 
+# ---- circular geometry (no psi table: judged by the displacement identity alone) ------------
+def circular_members(tier):
+    qs = [[3.0], [3.0, 2.0], [1.5, 4.0]]
+    # (nx, ny, r_inner, r_outer): radial cell width / r_inner <= 0.1 so that the second-order
+    # discretisation allowance stays below 1.5 %
+    cases = [(6, 12, 0.2, 0.3), (12, 8, 0.2, 0.3), (26, 8, 0.1, 0.35)]
+    if tier != "quick":
+        cases += [(24, 16, 0.2, 0.3), (5, 7, 0.25, 0.3), (40, 6, 0.1, 0.35), (9, 5, 0.15, 0.2)]
+    return [dict(nx=nx, ny=ny, q_coefficients=q, r_inner=ri, r_outer=ro) for q in qs for (nx, ny, ri, ro) in cases]
+
+
+def circular_case(opts):
+    import contextlib
+    import io
+    import warnings
+
+    from hypnotoad.cases import circular
+    from hypnotoad.core.mesh import BoutMesh
+
+    warnings.simplefilter("ignore")
+    try:
+        with contextlib.redirect_stdout(io.StringIO()):
+            eq = circular.CircularEquilibrium(settings=dict(opts))
+            mesh = BoutMesh(eq, dict(opts))
+            mesh.geometry()
+    except Exception as e:  # noqa: BLE001
+        return dict(opts=opts, refused="%s: %s" % (type(e).__name__, str(e)[:200]))
+    out = dict(opts=opts, rows=[])
+    for r in mesh.regions.values():
+        Rx, Zx = np.array(r.Rxy.xlow), np.array(r.Zxy.xlow)
+        dr = np.hypot(Rx[1:, :] - Rx[:-1, :], Zx[1:, :] - Zx[:-1, :])
+        dx = np.array(r.dx.centre)
+        g_11 = np.array(r.g_11.centre)
+        g11 = np.array(r.g11.centre)
+        Rc, Bp = np.array(r.Rxy.centre), np.array(r.Bpxy.centre)
+        out["rows"].append(dict(
+            region=r.name, n=int(dr.size),
+            g_11=float(np.max(np.abs(g_11 * dx**2 / dr**2 - 1.0))),
+            Bp=float(np.max(np.abs(np.abs(Bp) * Rc * dr / np.abs(dx) - 1.0))),
+            inv=float(np.max(np.abs(g11 * g_11 - 1.0)))))
+    return out
+
+
+def check_circular(ctx, stats):
+    """Circular (core-only) geometry has no psi table for the checker to interpolate; the
+    sign-convention-free clause needs none: g_11*dx^2 is the squared displacement between the
+    two x-faces of a cell, and R*|Bp|*|Dr| = |dpsi| (second order in the radial spacing)."""
+    from concurrent.futures import ProcessPoolExecutor
+
+    mem = circular_members(ctx.tier)
+    with ProcessPoolExecutor(min(8, len(mem))) as pool:
+        res = list(pool.map(circular_case, mem))
+    for r in res:
+        stats["circular_members"] = stats.get("circular_members", 0) + 1
+        if "refused" in r:
+            stats["circular_refused"] = stats.get("circular_refused", 0) + 1
+            continue
+        o = r["opts"]
+        # second-order discretisation error; measured 0.35..0.63 (width/r_inner)^2
+        width = (o["r_outer"] - o["r_inner"]) / o["nx"]
+        tol = 1e-6 + 2.5 * (width / o["r_inner"]) ** 2
+        for row in r["rows"]:
+            stats["circular_cells"] = stats.get("circular_cells", 0) + row["n"]
+            for what, key in (("g_11*dx^2 = |Dx r|^2", "g_11"), ("R*|Bp|*|Dx r| = |dx|", "Bp")):
+                ctx.setmax("worst_over_tol[circular %s]" % what, row[key] / tol)
+                if not row[key] <= tol:
+                    ctx.violation("circular | %s | centre" % what,
+                                  dict(options=o, region=row["region"], residual=row[key], tol=tol),
+                                  replay=dict(kind="circular", options=o))
+            if not row["inv"] <= 1e-10:
+                ctx.violation("circular | g11*g_11 = 1 (orthogonal) | centre", dict(options=o, residual=row["inv"]),
+                              replay=dict(kind="circular", options=o))
+
+
 def run(ctx, arts=None):
     if arts is None:
         arts = gu.select(ctx.tier, log=ctx.log)
@@ -412,6 +486,10 @@ def run(ctx, arts=None):
         o = a.side["mesh"]["user_options"]
         classes.add((a.config["geom"], bool(o.get("orthogonal", True)), a.config["sigma"]))
         ctx.sample(dict(config=a.config["label"]), limit=5)
+    if getattr(ctx, "_with_circular", True):
+        check_circular(ctx, stats)
+        for k in ("circular_members", "circular_refused", "circular_cells"):
+            ctx.set(k, stats.get(k, 0))
     ctx.set("evaluations", len(arts))
     ctx.set("distinct_nontrivial", nontrivial)
     ctx.set("refused_configurations", refused)
@@ -432,6 +510,10 @@ def run(ctx, arts=None):
 
 def replay(ctx, payload):
     from vlib import corpus
+
+    if payload["replay"].get("kind") == "circular":
+        check_circular(ctx, {})
+        return
 
     arts = corpus.ensure([payload["replay"]["config"]], log=ctx.log)
     run(ctx, arts)
